@@ -498,6 +498,23 @@ def cli_cases(tier: str) -> List[Dict[str, Any]]:
             continue
         seen.add(key)
         cases.append({"why": f"field fault: {case['class']} at {case['asset']}.{case['table']}.{case['field']}", "sheets": faulty_sheets(case), "ini": good_ini, "opts": [], "fault": case})
+    # (e1') the same faults with date filters that exclude the faulty row from the REPORT: the input is malformed all the same
+    from datetime import datetime as _dt, timedelta as _td
+
+    base = base_input()
+    last_case: Dict[Any, Dict[str, Any]] = {}
+    for case in all_field_fault_cases():
+        if case["field"] == "timestamp":
+            continue
+        key = (case["table"], case["class"])
+        if key not in last_case or case["row_index"] >= last_case[key]["row_index"]:
+            last_case[key] = case  # the fault sits in the LAST row of its table (of the last asset): earlier rows stay inside the window
+    for case in last_case.values():
+        rows = dict(base[case["asset"]])[case["table"]]
+        own = _dt.fromisoformat(rows[case["row_index"]]["timestamp"]).date()
+        for opts in (["-t", "2019-01-01"], ["-f", "2030-01-01"], ["-t", str(own - _td(days=1))], ["-f", str(own + _td(days=1))]):
+            cases.append({"why": f"field fault outside the date window ({' '.join(opts)}): {case['class']} at {case['asset']}.{case['table']}.{case['field']}", "sheets": faulty_sheets(case),
+                          "ini": good_ini, "opts": opts, "fault": case})
     # (e2) structure faults (single edits of a well-formed sheet that the acceptor says must be rejected), placed in the second asset's sheet
     struct = ["IhiEOho", "IhiEIhiE", "IhIiE", "iIhiE", "EIhiE", "IiE", "IhioE", "IhiEbo", "OhoE", "IhE", "IhiEOhoEThtEh", "IhiEOhoEThtEbI", "IhibiE"]
     for s in struct:
